@@ -14,7 +14,7 @@ RULE = ('consistency: every line up to the bound over the 16-symbol alphabet "a*
         'bracket or quote}; markup and stylesheet type; domain D1 must be exact, domain D2 is built to contain one of the two recorded heuristic patterns. '
         'Non-trivial = extract returned a result / A has an operator or bracket; distinct by (line, position, options)')
 ASSUMPTIONS = ['D1 = lines in which no ">" operator of A (outside [] and {}) is preceded by a blank-, quote-free run containing "=", and no quoted attribute value contains a bracket character',
-               'A uses ASCII names, balanced brackets inside [...], no braces inside {...}; stylesheet A has no commas, blanks, quotes or ${...} (function arguments cannot be extracted by design)',
+               'A uses ASCII names, balanced brackets inside [...], balanced (possibly nested) braces inside {...}; stylesheet A has no commas, blanks, quotes or ${...} (function arguments cannot be extracted by design)',
                'an empty abbreviation (line of operators only) is a consistent result',
                'prefixes used in round trips do not occur inside A']
 ALPHA = ['a', '*', '^', ' ', '>', '+', '[', ']', '{', '}', '(', ')', '"', '=', '<', '/']
@@ -155,7 +155,8 @@ def rand_elem(rng, d2_pattern=None):
     if not s:
         s = '.c'
     if rng.random() < 0.2:
-        s += '{%s}' % rng.choice(['text', 'a b', 'x>y', 'a]b', '(x', '$#', 'q=r', "it's", '[1]', 'a<b'])
+        s += '{%s}' % rng.choice(['text', 'a b', 'x>y', 'a]b', '(x', '$#', 'q=r', "it's", '[1]', 'a<b', 'Hello ${1}', 'a {b} c', 'item ${1:name} x',
+                                  '{x}', 'x {y {z}} w', 'f, ${2:g}, h', '${0}'])
     if rng.random() < 0.2:
         s += '*%s' % rng.choice(['2', '3', '10', ''])
     return s
